@@ -617,10 +617,17 @@ class Exec:
 
     def disk_canon(self):
         out = []
-        for name in sorted(os.listdir(self.disk)):
-            p = os.path.join(self.disk, name)
-            with open(p, 'rb') as fh:
-                out.append([name, hashlib.sha1(fh.read()).hexdigest()[:16]])
+        for dirpath, dirnames, filenames in os.walk(self.disk):
+            dirnames.sort()
+            for name in sorted(filenames):
+                p = os.path.join(dirpath, name)
+                rel = os.path.relpath(p, self.disk)
+                try:
+                    with open(p, 'rb') as fh:
+                        out.append([rel, hashlib.sha1(
+                            fh.read()).hexdigest()[:16]])
+                except OSError:
+                    out.append([rel, 'unreadable'])
         return out
 
     # ---- one call
@@ -2034,7 +2041,10 @@ def gen_plan(seed, index, tier='quick'):
         op = {'op': k, 's': [ops_rng.randrange(1 << 16) for _ in range(NSLOTS)],
               'r': ops_rng.getrandbits(48), 'store': ops_rng.chance(0.5)}
         if enabled_faults and f_rng.chance(rate):
-            fk = f_rng.pick(enabled_faults)
+            # (among the kinds that apply to this call, so that the rarer
+            # kinds - failing collaborators, OS errors - are not drowned)
+            fits_ = [x for x in enabled_faults if k in FAULT_OPS[x]]
+            fk = f_rng.pick(fits_) if fits_ else f_rng.pick(enabled_faults)
             if k in FAULT_OPS[fk]:
                 op['fault'] = {'kind': fk}
                 if fk == 'collab_fail':
